@@ -16,7 +16,7 @@ TInit == tid \in 1..Len(Traces) /\ l = 1
 (* DEVIATIONS of the code (named; switched on only to explain a rejection) *)
 ParamsDropped == "LastSegmentParamsDropped" \in Accept /\ S.path = "lastparam"
   /\ O.target = <<"/a", "/b">> \o QueryToks(S)
-Ipv6Unbracketed == "Ipv6HostUnbracketed" \in Accept /\ S.hostk = "ipv6"
+Ipv6Unbracketed == "Ipv6HostUnbracketed" \in Accept /\ IsV6(S)
 
 Judge ==
   /\ O.scheme = E.scheme /\ O.host = E.host /\ O.port = E.port /\ O.oport = E.oport
